@@ -7,7 +7,9 @@ CONSTANTS
   NHosts = 2
   MaxOps = 7
   StoreUnderReadLock = @STOREUNDERREAD@
+  ReopenForgetsKs = FALSE
+  FailKeepsLock = FALSE
   SelectIgnoresFailure = @SELECTIGNORES@
-INVARIANTS ForwardInClientKs OnlyValidKs NoBrokenSession
+INVARIANTS ForwardInClientKs OnlyValidKs NoBrokenSession NoLockLeak
 PROPERTIES FailedUseKeepsKs Isolation TableWriteExclusive
 CHECK_DEADLOCK FALSE
